@@ -5,6 +5,7 @@ namespace xp = xenium::policy;
 struct IdHash { std::size_t operator()(int k) const { return (std::size_t)k; } };
 struct ConstHash { template <class K> std::size_t operator()(const K&) const { return 7; } };
 struct ScrambleHash { std::size_t operator()(int k) const { return (std::size_t)((k * 5) % 7); } };
+struct RevBucket { std::size_t operator()(std::size_t h, std::size_t n) const { return (n - 1) - (h % n); } };
 struct StrScramble { std::size_t operator()(const std::string& s) const { return (std::size_t)(((s.back() - 'a') * 5) % 7); } };
 template <class R, std::size_t B, bool Memo, class H>
 using IMap = xenium::harris_michael_hash_map<int, int, xp::reclaimer<R>, xp::buckets<B>, xp::memoize_hash<Memo>, xp::hash<H>>;
@@ -22,6 +23,8 @@ const Cfg cfgs[] = {
   {"map<int>/b2/nomemo/scramble/qsbr", mk<MapAd<IMap<rc::QSBR, 2, false, ScrambleHash>, int>>},
   {"map<int>/b2/memo/id/backoff_single/hp_s8_0_0",
    mk<MapAd<xenium::harris_michael_hash_map<int, int, xp::reclaimer<rc::HP_S<8, 0, 0>>, xp::buckets<2>, xp::memoize_hash<true>, xp::hash<IdHash>, xp::backoff<xenium::single_backoff>>, int>>},
+  {"map<int>/b3/nomemo/id/revbucket/ebr0",
+   mk<MapAd<xenium::harris_michael_hash_map<int, int, xp::reclaimer<rc::EBR<0>>, xp::buckets<3>, xp::memoize_hash<false>, xp::hash<IdHash>, xp::map_to_bucket<RevBucket>>, int>>},
 };
 HMHarness h("hmmap", cfgs, sizeof(cfgs) / sizeof(cfgs[0]));
 struct Reg { Reg() { xsim::register_harness(&h); } } reg;
